@@ -26,7 +26,7 @@ def namespace(ctx):
     ns = harness.namespace(MOD)
     ns["np"] = NPX()
     warned = []
-    ns["warnings"] = values.Rec("warnings", warn=lambda msg: warned.append(msg))
+    ns["warnings"] = values.Rec("warnings", warn=lambda msg, *a, **k: warned.append(msg))
     ns["spsp"] = values.Rec("spsp", gamma=transc.gamma)
     for f in ("_phiM", "_phiC", "_psiM", "_mParam", "_nParam", "estimateFootprint", "estimateZ0"):
         harness.define(ctx, ns, MOD, f)
